@@ -62,6 +62,18 @@
 #define GEOGRAPHICLIB_PANIC(msg) false
 #endif
 
+#if defined(GEOGRAPHICLIB_VERIF_HOOKS) && GEOGRAPHICLIB_PRECISION <= 3
+// Verification hook (off unless GEOGRAPHICLIB_VERIF_HOOKS is defined): make
+// the otherwise silent convergence failures observable by a test harness.  The
+// loop still exits cleanly exactly as without the hook.
+extern "C" void geographiclib_verif_event(const char* kind, const char* msg)
+  __attribute__((weak));
+#undef GEOGRAPHICLIB_PANIC
+#define GEOGRAPHICLIB_PANIC(msg) \
+  ((geographiclib_verif_event ? \
+    geographiclib_verif_event("panic", msg) : (void)0), false)
+#endif
+
 namespace GeographicLib {
 
   /**
